@@ -9,6 +9,7 @@ import (
 	"path"
 	"path/filepath"
 	"sync"
+	"sync/atomic"
 	"time"
 
 	"github.com/hydraide/hydraide/app/core/settings/setting"
@@ -77,6 +78,7 @@ type settings struct {
 	pluginPath         string
 	maxDepthOfFolders  int
 	maxFoldersPerLevel int
+	unsaved            atomic.Bool // the last SaveSettingsToFilesystem failed
 }
 
 type Model struct {
@@ -174,7 +176,10 @@ func (s *settings) RegisterPattern(pattern name.Name, inMemorySwamp bool, closeA
 		if _, ok := s.patterns[pattern.Get()]; ok {
 			// check if the actual pattern setting is different from the new setting
 			// (an in-memory pattern that is registered again as a filesystem one HAS changed, whatever its numbers are)
-			if s.patterns[pattern.Get()].GetSwampType() == setting.PermanentSwamp &&
+			// (and only when the last save of the settings file succeeded: after a failed save the runtime map is
+			// ahead of the file, and skipping the save would lose this acknowledged registration at the next restart)
+			if !s.unsaved.Load() &&
+				s.patterns[pattern.Get()].GetSwampType() == setting.PermanentSwamp &&
 				s.patterns[pattern.Get()].GetCloseAfterIdle() == time.Duration(closeAfterIdleSec)*time.Second &&
 				(filesystemSettings != nil &&
 					(s.patterns[pattern.Get()].GetWriteInterval() == time.Duration(filesystemSettings.WriteIntervalSec)*time.Second &&
@@ -302,7 +307,10 @@ func (s *settings) CallbackAtChanges(f func()) chan bool {
 	return nil
 }
 
-func (s *settings) SaveSettingsToFilesystem() error {
+func (s *settings) SaveSettingsToFilesystem() (err error) {
+
+	// remember whether the file is behind the in-memory model
+	defer func() { s.unsaved.Store(err != nil) }()
 
 	data, err := json.MarshalIndent(s.model, "", "  ")
 	if err != nil {
